@@ -2,8 +2,8 @@
 package c02
 
 import (
-	"iter"
 	"fmt"
+	"iter"
 	"math"
 	"math/rand"
 	"reflect"
@@ -246,8 +246,28 @@ func genSkip(t *rapid.T) skipCase {
 		o.C = rapid.IntRange(-1, 6).Draw(t, "stop") // callback returns false at this index (-1: never)
 		c.Ops = append(c.Ops, o)
 	}
-	hg := rapid.OneOf(rapid.IntRange(1, 4), rapid.IntRange(1, 8), rapid.IntRange(1, 32))
+	hg := rapid.OneOf(rapid.IntRange(1, 4), rapid.IntRange(1, 8), rapid.IntRange(1, 32), rapid.SampledFrom([]int{7, 8, 9, 15, 16, 17, 31, 32}))
 	c.Heights = rapid.SliceOfN(hg, 0, nops).Draw(t, "heights")
+	if rapid.IntRange(0, 7).Draw(t, "tall") == 0 && c.Kind != 5 {
+		// the list level grows by at most one per insertion: only a run of insertions that each draw a tower above
+		// the current level reaches the upper levels (16, 17, ..., 32). Prefix: k distinct keys with such towers.
+		c.N = 64
+		k := rapid.IntRange(15, 40).Draw(t, "tallRun")
+		keys := rapid.Permutation(seq(c.N)).Draw(t, "tallKeys")[:k]
+		var pre []op
+		var hs []int
+		stair := rapid.Bool().Draw(t, "staircase")
+		for i, key := range keys {
+			pre = append(pre, op{K: opSet, A: key, B: key, C: -1})
+			if stair {
+				hs = append(hs, min(i+1+rapid.IntRange(0, 1).Draw(t, "skip"), 32))
+			} else {
+				hs = append(hs, 32)
+			}
+		}
+		c.Ops = append(pre, c.Ops...)
+		c.Heights = append(hs, c.Heights...)
+	}
 	return c
 }
 
@@ -416,6 +436,7 @@ func drive[K comparable](c skipCase, r *pb.Rec, a api[K], keyOf func(int) K, les
 		}
 		return nil
 	}
+	maxLevelSeen := 0
 	for step, o := range c.Ops {
 		installRand(a.list, rnd)
 		if o.A < 0 || o.A > c.N+1 || o.B < 0 || o.B > c.N+1 {
@@ -425,6 +446,9 @@ func drive[K comparable](c skipCase, r *pb.Rec, a api[K], keyOf func(int) K, les
 		_, present := model[o.A]
 		val := step*100 + o.B
 		lvlBefore := levelOf(a.list)
+		if lvlBefore > maxLevelSeen {
+			maxLevelSeen = lvlBefore
+		}
 		fail := func(format string, args ...any) error {
 			return fmt.Errorf("step %d op %d(%v,%v): %s", step, o.K, ka, kb, fmt.Sprintf(format, args...))
 		}
@@ -573,13 +597,15 @@ func drive[K comparable](c skipCase, r *pb.Rec, a api[K], keyOf func(int) K, les
 	}
 	r.NonTrivialIf(removedPresent && absentStart)
 	r.ClassIf(levelOf(a.list) >= 4, "level >= 4 reached")
+	r.ClassIf(maxLevelSeen >= 17, "level >= 17 reached")
+	r.ClassIf(maxLevelSeen == 32, "top level 32 reached")
 	r.ClassIf(randFieldMissing, "FALLBACK: rand field not found, list's own randomness used")
 	return nil
 }
 
 func init() {
 	pb.Register("ordered_map", pb.Options{Base: 8000,
-		Required: []string{"Init after writes", "top level shrank", "zero value read path", "zero value after Clear read path", "clear then write", "level >= 4 reached"},
+		Required: []string{"Init after writes", "top level shrank", "zero value read path", "zero value after Clear read path", "clear then write", "level >= 4 reached", "level >= 17 reached", "top level 32 reached"},
 		Rule:     "operation sequences (<= 60 steps, thorough <= 200) over Set/SetNx/SetX/Remove/Clear/Get/GetNode(+Key/Value/Next/SetValue)/Head/Len/Keys/Values/Range/All/RangeWithStart/RangeWithRange with early-stop callbacks, on SkipList[int|string|float64] started from NewSkipList / zero value / zero value after Clear and SkipListWithCmp under ascending, descending and permutation-rank comparators; dense key domains with outer neighbours; tower heights injected through the list's random source (part of the case); oracle: sorted-map model compared after every step; non-trivial = a present key removed after >= 3 inserts and a range query with an absent start key"},
 		genSkip, runSkip)
 }
